@@ -4,6 +4,9 @@ import json, os
 ROOT = os.path.dirname(os.path.dirname(os.path.abspath(__file__)))
 props = [json.loads(l) for l in open(os.path.join(ROOT, "properties.jsonl"))]
 CLAIMED = {
+ "C03": ("Kernel-checked theorems: for every PE module whose unwind data is well-formed at the address (chain of UNWIND_INFOs present and finite, chained infos keep the frame register, stack adjustments multiples of 8, mov-saves listed first as compilers emit them, text bytes available for an innermost frame, a caller frame not inside an epilog) and ARBITRARY registers and stack on which the documented unwind procedure (Pe.ms_unwind: function-table lookup, epilog simulation, unwind codes filtered by prolog offset with the frame base fixed on entry, chained infos, machine frames; exact arithmetic) succeeds, Unwinder::unwind_frame returns the same return address (null = end of stack) and the same sixteen general-purpose registers - through the compressed cacheable rule (proved lossless for every (offset|pop)* sequence the encoder accepts, via the register-ordering round trip) and through the uncacheable path; walks over described activations yield exactly the chain and complete with Ok(None). The specification itself is run (extracted) against an independent Python transcription of the procedure on every input. Real code: synthesized PE programs with real prolog/epilog bytes (push, MSVC home-space saves, frame register + dynamic allocation, alloc-large both forms, chained cold regions, leaves without table entry), call chains, every interruption point, fresh and warmed cache, compared with the truth known by construction; plus arbitrary registers/stack against the oracle procedure.",
+         "theorem (Coq, refinement to the documented procedure + losslessness of rule compression) + ground-truth and procedure oracles on real code + specification-vs-oracle check",
+         "pe-unwind-info's byte parsers (.pdata, UNWIND_INFO, epilog instruction decoder) are transcribed and tied by correspondence, not verified; UWOP_EPILOG (version 2) and XMM register values are outside; data that compilers do not emit (mov-saves after stack adjustments, stack adjustments not divisible by 8, chained infos with another frame register) is excluded by the well-formedness hypothesis."),
  "C01": ("Row-level: kernel-checked theorems for both architectures - if every activation of a thread is exactly described by the registered CFI (some FDE of the containing module covers the frame's lookup address and the DWARF specification step of the row in force yields that activation's return address, caller sp and caller fp; the root's row declares the return address undefined), the walk yields exactly the chain with the caller's sp and fp after every step and completes with Ok(None) - any presentation and section order (through C12, C07, C05). On the real code: programs synthesized from compiler-style function shapes (frame-pointer, frameless with pushes/allocation, leaf, noreturn tail, early-return epilogues, aarch64 return-address signing with the vendor opcode), call chains and every interruption point, compared with the chain known by construction.",
          "theorem (Coq, induction over activations) + ground-truth scenario oracle on real code",
          "Rows are taken per instruction boundary as a compiler emits them; deriving them from an instruction-level machine (stage 2) is not done. gimli by contract."),
